@@ -1,5 +1,6 @@
 """C06 - every write+read format preserves frame identity and signal bit layout."""
 import json
+import re
 
 from lib import roundtrip as R
 
@@ -14,7 +15,7 @@ RULE = ("case 'sig' = (format out of dbc, dbf, sym, kcd, json, xls, arxml; for j
 PARTIAL = ["only the field kernels (position and identifier numbers) carry theorems; file assembly, XML plumbing and reference "
            "resolution are tied by this correspondence check only",
            "multi-bus clusters (KCD/ARXML with 2..3 buses) are not generated yet",
-           "ARXML 3.x is not generated (4.x only)"]
+           "ARXML: versions 4.1.0 and 3.2.3 of the writer"]
 ASSUMPTIONS = ["SYM: the multiplexer is renamed <frame>_MUX by design and static signals of multiplexed messages are repeated per group",
                "XLS: identifier numbers unique across standard/extended, value-table keys below 2^53 (cells hold doubles)", "ARXML: matrix-unique signal names, no ECU both sends and receives a frame"]
 TRUSTED = ["lxml, xlrd/xlwt, json used by the writers/readers", "regular-expression mini-parsers of the harness"]
@@ -30,13 +31,15 @@ def gen(rng, tier, shard, nshards, rich=False):
         if fmt == "xls":
             wn = rng.choice(R.NOTATIONS)
             rn = wn
+        if fmt == "arxml" and rng.random() < 0.4:
+            wn = "3.2.3"          # the other AUTOSAR version the writer offers (default 4.1.0)
         desc = R.gen_case_matrix(rng, fmt, rich)
         for f in desc["frames"]:
-            yield {"op": "frame", "c": {"fmt": fmt, "wn": wn, "rn": rn, "m": desc, "fid": f["id"], "ext": f["ext"]}}
+            yield {"op": "frame", "c": {"fmt": fmt, "wn": wn, "rn": rn, "m": desc, "fid": f["id"], "ext": f["ext"], "lvl": "full" if rich else "layout"}}
             for s in f["signals"]:
                 yield {"op": "sig", "c": {"fmt": fmt, "wn": wn, "rn": rn, "m": desc, "fid": f["id"], "ext": f["ext"], "sname": s["name"],
                                           "sig": [s["name"], s["start"], s["size"], s["little"], s["signed"], s["float"]],
-                                          "x": fmt in ("dbc", "dbf", "sym", "kcd", "json")}}
+                                          "x": fmt in ("dbc", "dbf", "sym", "kcd", "json"), "lvl": "full" if rich else "layout"}}
 
 
 def neighbours(case, rng, shard, nshards):
@@ -46,7 +49,7 @@ def neighbours(case, rng, shard, nshards):
         for f in desc["frames"]:
             for s in f["signals"]:
                 yield {"op": "sig", "c": {"fmt": c["fmt"], "wn": c["wn"], "rn": c["rn"], "m": desc, "fid": f["id"], "ext": f["ext"], "sname": s["name"],
-                                          "sig": [s["name"], s["start"], s["size"], s["little"], s["signed"], s["float"]], "x": c.get("x", False)}}
+                                          "sig": [s["name"], s["start"], s["size"], s["little"], s["signed"], s["float"]], "x": c.get("x", False), "lvl": c.get("lvl", "full")}}
 
 
 def observe(case):
@@ -68,7 +71,7 @@ def observe(case):
     return {"emit": stored if c.get("x") else None,
             "back": [gs["start"], gs["size"], gs["little"]] if gs else None,
             # the sign flag of a float signal carries no meaning and is not stored by DBF/KCD/SYM
-            "type": [None if gs["float"] else gs["signed"], gs["float"]] if (gs and c["fmt"] != "xls") else None}
+            "type": [None if gs["float"] else gs["signed"], gs["float"]] if (gs and c["fmt"] != "xls" and c.get("lvl") != "layout") else None}
 
 
 def project(impl):
@@ -84,7 +87,7 @@ def to_model_case(case):
 def features(case, impl):
     c = case["c"]
     yield "op=" + case["op"]
-    yield "fmt=" + c["fmt"] + ("/" + c["wn"] + ">" + c["rn"] if c["fmt"] in ("json", "xls") else "")
+    yield "fmt=" + c["fmt"] + ("/" + c["wn"] + ">" + c["rn"] if c["fmt"] in ("json", "xls") else "/" + c["wn"] if c["wn"] == "3.2.3" else "")
     if case["op"] == "sig":
         d = c["sig"]
         yield "%s:%s%s" % (c["fmt"], "intel" if d[3] else "motorola", "/float" if d[5] else "")
@@ -100,6 +103,8 @@ def classify(case, impl, spec):
     """known finding: SYM names an enumeration after its signal, so two equal-named signals of different frames with different
     value tables share one enumeration after the round trip"""
     c = case["c"]
+    if c["fmt"] == "arxml" and c.get("wn") == "3.2.3" and spec and re.search(r"signedness|float type|unit of ", spec):
+        return "C07-arxml3-type-unit"
     if case["op"] == "frame" and c["fmt"] == "sym" and spec and spec.startswith("fail: value table of "):
         name = spec[len("fail: value table of "):].split(" ")[0]
         tables = [json.dumps(s["values"], sort_keys=True) for f in c["m"]["frames"] for s in f["signals"] if s["name"] == name and s["values"]]
